@@ -21,6 +21,9 @@ ENCODINGS = ['utf8', 'utf16le', 'utf16be', 'utf32le', 'utf32be']
 SEPARATORS = ['comma', 'semicolon', 'tab', 'space', 'pipe']
 
 
+PADDED = {'json': 'padded', 'xml': 'padded', 'msgpack': 'padded', 'csv': 'csvpadded'}
+
+
 def build_doc(variant='asan'):
     return build.build('drv_doc', variant, DOC_SOURCES)
 
